@@ -171,3 +171,71 @@ def show_arg(nz, a):
     if a[0] == "ref":
         return "&" + nz.path_atom(a[1])
     return str(a)[:100]
+
+
+def backward_slice(b, local, depth=14):
+    """static backward slice through single-definition temporaries: returns (callee names, field names, param ids)
+    that the value of `local` is computed from (used only to classify the role of a value)"""
+    defs = {}
+    for blk in b.blocks:
+        if blk["cleanup"]:
+            continue
+        for s in blk["stmts"]:
+            if s["k"] == "assign" and not s["place"]["proj"]:
+                defs.setdefault(s["place"]["local"], []).append(("assign", s["rv"]))
+        t = blk["term"]
+        if t["k"] == "call" and not t["dest"]["proj"]:
+            defs.setdefault(t["dest"]["local"], []).append(("call", t))
+    callees, fields, params = set(), set(), set()
+    seen = set()
+
+    def place_locals(p):
+        for e in p["proj"]:
+            if isinstance(e, dict) and "field" in e:
+                fields.add(("%s.%s" % (e.get("of", ""), e["field"])))
+        return [p["local"]]
+
+    def op_locals(o):
+        p = o.get("copy") or o.get("move")
+        return place_locals(p) if p else []
+
+    def visit(l, d):
+        if l in seen or d > depth:
+            return
+        seen.add(l)
+        if 1 <= l <= b.arg_count:
+            params.add(l)
+        for kind, x in defs.get(l, []):
+            if kind == "assign":
+                rv = x
+                if rv["k"] in ("use", "cast", "un"):
+                    for y in op_locals(rv["a"]):
+                        visit(y, d + 1)
+                elif rv["k"] in ("ref", "rawptr", "discr"):
+                    for y in place_locals(rv["place"]):
+                        visit(y, d + 1)
+                elif rv["k"] == "bin":
+                    for y in op_locals(rv["a"]) + op_locals(rv["b"]):
+                        visit(y, d + 1)
+                elif rv["k"] in ("aggr", "tuple", "array", "closure"):
+                    for f in rv["fields"]:
+                        for y in op_locals(f):
+                            visit(y, d + 1)
+            else:
+                t = x
+                c = cfgmod.callee(t)
+                if c:
+                    callees.add(c)
+                for a in t["args"]:
+                    for y in op_locals(a):
+                        visit(y, d + 1)
+    visit(local, 0)
+    return callees, fields, params
+
+
+def iter_source_local(b, header_bb):
+    """the local holding the iterator advanced by the `next` call in a loop header block"""
+    for s in b.blocks[header_bb]["stmts"]:
+        if s["k"] == "assign" and s["rv"]["k"] == "ref" and not s["rv"]["place"]["proj"]:
+            return s["rv"]["place"]["local"]
+    return None
